@@ -42,6 +42,37 @@ impl PropCase for Term {
             format!("None on each of the {} calls made after the first {}", self.k, if st.first_err.is_some() { "error" } else { "None" }),
             format!("{:?} ; input {}", st.late_items.iter().take(3).collect::<Vec<_>>(), hex_short(x))
         );
+        // ---- internal iteration (`fold`, and through it `for_each` / `count` / `last`) is iterating too: at most
+        // |x|+1 items, at most one error, and the error is the last item. A fold that does not end cannot be broken
+        // out of, so the closure leaves through a panic that is caught right here.
+        let lim = x.len() + 1;
+        let folded = std::panic::catch_unwind(std::panic::AssertUnwindSafe(|| {
+            sml_rs::parser::streaming::Parser::new(x).fold((0usize, 0usize, false), |(n, e, after_err), r| {
+                if n > lim {
+                    std::panic::panic_any("fold-runaway");
+                }
+                (n + 1, e + r.is_err() as usize, after_err || e > 0)
+            })
+        }));
+        match folded {
+            Err(_) => {
+                ensure!(
+                    false,
+                    "fold-item-bound",
+                    format!("Parser::fold visits at most |x|+1 = {} items", lim),
+                    format!("more than {} items and still going ; input {}", lim, hex_short(x))
+                );
+            }
+            Ok((n, e, after_err)) => {
+                ensure!(
+                    n <= lim && e <= 1 && !after_err,
+                    "fold-one-error-then-end",
+                    format!("Parser::fold visits at most {} items, at most one error, nothing after the error", lim),
+                    format!("{} items, {} errors, item after an error: {} ; input {}", n, e, after_err, hex_short(x))
+                );
+                ctx.bump("fold-runs");
+            }
+        }
         let phase = match (st.first_err, st.pending_at_err) {
             (None, _) => "clean-end",
             (Some(_), Some(0)) => "message-start",
